@@ -47,6 +47,22 @@ pub mod itertools { pub mod Either {
     #[verifier::external_body]
     pub fn Right(i: super::super::VerifIter) -> (r: super::super::VerifIter) ensures r.elems() == i.elems() { unimplemented!() }
 }}
+// std::borrow::Cow with its real two variants; whichever it is, it dereferences to ONE target value (`Deref for Cow`: `Borrowed(b) => b`,
+// `Owned(o) => o.borrow()`, assumed); "holding an entry or value behind Cow" (C15) means that target's report
+#[verifier::reject_recursive_types(T)]
+pub enum Cow<'a, T: ?Sized + ToOwned + 'a> { Borrowed(&'a T), Owned(<T as ToOwned>::Owned) }
+pub uninterp spec fn owned_target<T: ?Sized + ToOwned>(o: &<T as ToOwned>::Owned) -> &T;
+impl<'a, T: ?Sized + ToOwned> Cow<'a, T> {
+    pub open spec fn target(&self) -> &T { match self { Cow::Borrowed(b) => *b, Cow::Owned(o) => owned_target::<T>(o) } }
+    // AsRef<T> for Cow / Borrow<T>: the same target (std, assumed)
+    #[verifier::external_body]
+    pub fn as_ref(&self) -> (r: &T) ensures r == self.target() { unimplemented!() }
+}
+impl<'a, T: ?Sized + ToOwned> core::ops::Deref for Cow<'a, T> {
+    type Target = T;
+    #[verifier::external_body]
+    fn deref(&self) -> (r: &T) ensures r == self.target() { unimplemented!() }
+}
 pub trait Entry {
     spec fn items(&self) -> Seq<Item>;
     spec fn groups(&self) -> Seq<int>;
@@ -82,6 +98,7 @@ pub trait Value {
 '''
 
 FWD_ITEMS = "    open spec fn items(&self) -> Seq<Item> { (**self).items() }\n    open spec fn groups(&self) -> Seq<int> { (**self).groups() }\n"
+COW_ITEMS = "    open spec fn items(&self) -> Seq<Item> { self.target().items() }\n    open spec fn groups(&self) -> Seq<int> { self.target().groups() }\n"
 FWD_EFFECT = "    open spec fn effect(&self) -> int { (**self).effect() }\n"
 
 ITEMS = [
@@ -112,6 +129,9 @@ ITEMS = [
     dict(kind="fn", file=ENTRY, impl=r"^impl < T : Entry \+ \? Sized > Entry for Arc < T >$", name="write", impl_trait_args=True, rules={"R14": 1}, label="<Arc<T> as Entry>::write",
          impl_extra=FWD_ITEMS),
     dict(kind="fn", file=ENTRY, impl=r"^impl < T : Entry \+ \? Sized > Entry for Arc < T >$", name="sample_group", ret_iter="VerifIter", label="<Arc<T> as Entry>::sample_group", rules={"R23": 1}),
+    dict(kind="fn", file=ENTRY, impl=r"^impl < T : Entry \+ ToOwned \+ \? Sized > Entry for Cow < '_ , T >$", name="write", impl_trait_args=True, rules={"R14": 1}, label="<Cow<T> as Entry>::write",
+         impl_extra=COW_ITEMS),
+    dict(kind="fn", file=ENTRY, impl=r"^impl < T : Entry \+ ToOwned \+ \? Sized > Entry for Cow < '_ , T >$", name="sample_group", ret_iter="VerifIter", label="<Cow<T> as Entry>::sample_group", rules={"R23": 1}),
     dict(kind="struct", file=ROOT, name="RootEntry", attrs=["#[verifier::reject_recursive_types(M)]"]),
     dict(kind="fn", file=ROOT, impl=r"^impl < M : InflectableEntry > Entry for RootEntry < M >$", name="write", impl_trait_args=True, rules={"R14": 1}, label="RootEntry::write",
          impl_extra="    open spec fn items(&self) -> Seq<Item> { self.metric.items() }\n"
@@ -138,6 +158,8 @@ ITEMS = [
          impl_extra=FWD_EFFECT),
     dict(kind="fn", file=VALUE, impl=r"^impl < T : Value > Value for Arc < T >$", name="write", impl_trait_args=True, rules={"R14": 1}, label="<Arc<T> as Value>::write",
          impl_extra=FWD_EFFECT),
+    dict(kind="fn", file=VALUE, impl=r"^impl < T : Value \+ ToOwned \+ \? Sized > Value for Cow < '_ , T >$", name="write", impl_trait_args=True, rules={"R14": 1}, label="<Cow<T> as Value>::write",
+         impl_extra="    open spec fn effect(&self) -> int { self.target().effect() }\n"),
 ]
 
 POSTLUDE = r'''
